@@ -49,7 +49,7 @@ Proof.
       * intros h i. rewrite Hm, elem_of_bm_add, elem_of_cons. split.
         -- intros [[-> [->|?]]|[?|?]]; eauto.
         -- intros [[-> ?]|[[[= -> ->]|?]|?]]; eauto.
-      * intros h. rewrite Hd. rewrite fmap_cons, elem_of_cons. simpl. naive_solver.
+      * intros h. rewrite Hd. rewrite ?fmap_cons, elem_of_cons. simpl. naive_solver.
     + (* new hash: rotate *)
       assert (cur < kh) as Hlt by lia.
       destruct (IH kh (bm_add ki ∅) (out ++ [PutV cur b]) Hs) as (cur' & b' & out' & Hf & Hm & Hd).
@@ -73,7 +73,7 @@ Proof.
               destruct (decide (h = kh)) as [->|?]; [|by right; right].
               exfalso. assert (kh < cur); [|lia]. apply Hout.
               destruct (puts_map out !! kh); [by eauto|set_solver].
-      * intros h. rewrite Hd, puts_map_snoc, fmap_cons, elem_of_cons. simpl.
+      * intros h. rewrite Hd, puts_map_snoc, ?fmap_cons, elem_of_cons. simpl.
         destruct (decide (h = cur)) as [->|Hn].
         -- rewrite lookup_insert. naive_solver.
         -- rewrite lookup_insert_ne by done. naive_solver.
@@ -94,7 +94,8 @@ Proof.
   - simpl. split.
     + intros h i. unfold puts_map. simpl. rewrite lookup_empty. simpl. set_solver.
     + intros h. unfold puts_map. simpl. rewrite lookup_empty. split; [by intros [? ?]|set_solver].
-  - cbn [foldl big_step]. simpl.
+  - change (foldl big_step (Some (0, None, [])) ((kh, ki) :: l))
+      with (foldl big_step (Some (kh, Some (bm_add ki ∅), [])) l).
     apply StronglySorted_inv in Hs as [Hs Hhd].
     destruct (big_stream_spec l kh (bm_add ki ∅) [] Hs) as (cur' & b' & out' & -> & Hm & Hd).
     { rewrite Forall_forall in Hhd |- *. intros [h' i'] Hin. specialize (Hhd _ Hin).
@@ -105,7 +106,7 @@ Proof.
       rewrite lookup_empty. simpl. split.
       * intros [[-> [->|?]]|[?|[_ ?]]]; [by left|set_solver|by right|set_solver].
       * intros [[= -> ->]|?]; [left; split; [done|by left]|by right; left].
-    + intros h. rewrite Hd, fmap_cons, elem_of_cons. unfold puts_map at 1. simpl. rewrite lookup_empty.
+    + intros h. rewrite Hd, ?fmap_cons, elem_of_cons. unfold puts_map at 1. simpl. rewrite lookup_empty.
       split; [intros [?|[?|[? ?]]]; [by left|by right|done]|intros [?|?]; [by left|by right; left]].
 Qed.
 
@@ -121,9 +122,9 @@ Definition BW (bs : bstate) (ws : wstate) : Prop :=
 
 Lemma BW_init : BW b_init w_init.
 Proof.
-  repeat split; simpl; try done.
-  - intros Hx. by apply elem_of_nil in Hx.
-  - rewrite lookup_empty. simpl. set_solver.
+  split; [done|]. split; [done|]. split.
+  - intros h i. simpl. rewrite lookup_empty. simpl. rewrite elem_of_nil. set_solver.
+  - intros h b. simpl. by rewrite lookup_empty.
 Qed.
 
 Lemma BW_pair rid bs ws cv : BW bs ws → BW (b_add_pair H rid bs cv) (w_add_pair H rid ws cv).
@@ -154,10 +155,10 @@ Qed.
 Lemma BW_row r bs ws :
   BW bs ws → (b_add_row H bs r).1 = (w_add_row H ws r).1 ∧ BW (b_add_row H bs r).2 (w_add_row H ws r).2.
 Proof.
-  intros HB. pose proof HB as (Hs & Hn & Ht & Hne). unfold b_add_row, w_add_row. simpl.
+  intros HB. pose proof HB as (Hs & Hn & Ht & Hne). unfold b_add_row, w_add_row. cbn [fst snd].
   split; [done|]. rewrite Hn.
   pose proof (BW_row_fold (w_next ws) r bs ws HB) as (Hs' & Hn' & Ht' & Hne').
-  repeat split; simpl; try done. by rewrite Hn. all: by apply Ht'.
+  split; [exact Hs'|]. split; [done|]. split; [exact Ht'|exact Hne'].
 Qed.
 
 Lemma b_add_rows_cons st r rows :
@@ -180,6 +181,49 @@ Proof.
   by subst.
 Qed.
 
+(** ** One transaction applied to a store *)
+Definition vals_step (m : gmap N bval) (p : put) : gmap N bval :=
+  match p with PutV h b => <[h := BitmapOk b]> m | _ => m end.
+
+Lemma apply_tx_bucket s ps : st_bucket s = true → st_bucket (apply_tx s ps) = true.
+Proof.
+  unfold apply_tx. revert s. induction ps as [|p ps IH]; intros s Hb; [done|].
+  cbn [foldl]. apply IH. by destruct p.
+Qed.
+
+Lemma apply_tx_vals s ps : st_vals (apply_tx s ps) = foldl vals_step (st_vals s) ps.
+Proof.
+  unfold apply_tx. revert s. induction ps as [|p ps IH]; intros s; [done|].
+  cbn [foldl]. rewrite IH. by destruct p.
+Qed.
+
+Lemma vals_step_fmap (m : gmap N bitmap) ps :
+  foldl vals_step (BitmapOk <$> m) ps
+  = BitmapOk <$> foldl (λ m p, match p with PutV h b => <[h := b]> m | _ => m end) m ps.
+Proof.
+  revert m. induction ps as [|p ps IH]; intros m; [done|].
+  cbn [foldl]. rewrite <- IH. f_equal. destruct p; cbn [vals_step]; try done.
+  by rewrite fmap_insert.
+Qed.
+
+(** The store after the single transaction [PutBucket :: ps ++ [PutI n; PutS sch]]. *)
+Lemma big_tx_store ps n sch :
+  final_store [PutBucket :: ps ++ [PutI n; PutS sch]]
+  = Store true (Some (SchemaOk sch)) (Some (CountOk n)) (BitmapOk <$> puts_map ps).
+Proof.
+  unfold final_store. cbn [foldl].
+  change (PutBucket :: ps ++ [PutI n; PutS sch]) with ([PutBucket] ++ ps ++ [PutI n; PutS sch]).
+  rewrite !apply_tx_app.
+  pose proof (apply_tx_bucket (apply_tx empty_store [PutBucket]) ps eq_refl) as Hb.
+  pose proof (apply_tx_vals (apply_tx empty_store [PutBucket]) ps) as Hv.
+  destruct (apply_tx (apply_tx empty_store [PutBucket]) ps) as [b1 s1 c1 v1].
+  cbn [st_bucket st_vals] in Hb, Hv. subst b1 v1.
+  unfold apply_tx at 1. cbn [foldl apply_put st_bucket st_schema st_count st_vals].
+  f_equal. unfold apply_tx. cbn [foldl apply_put st_vals].
+  change (st_vals empty_store) with (∅ : gmap N bval).
+  rewrite <- (fmap_empty (M := gmap N) BitmapOk). rewrite vals_step_fmap. done.
+Qed.
+
 (** C05: both writers produce the same store. *)
 Lemma big_store_eq_mem rows :
   build_store H WBig rows = build_store H WMem rows.
@@ -187,25 +231,39 @@ Proof.
   unfold build_store.
   destruct (BW_rows rows b_init w_init BW_init) as [_ (Hs & Hn & Ht & Hne)].
   set (bs := (b_add_rows H b_init rows).2) in *. set (ws := (w_add_rows H w_init rows).2) in *.
-  rewrite (mem_final_store H ws (map_to_list (w_vals ws))) by done.
+  rewrite (mem_final_store ws (map_to_list (w_vals ws))) by done.
   unfold big_flush_tx, temp_keys.
   pose proof (big_stream_total (merge_sort key_le (b_temp bs))
                 (StronglySorted_merge_sort key_le (b_temp bs))) as Hst.
   destruct (foldl big_step (Some (0, None, [])) (merge_sort key_le (b_temp bs))) as [[[cur bm] out]|]; [|done].
-  simpl. f_equal. cbv zeta in Hst. destruct Hst as [Hm Hd].
+  cbn [out_map]. f_equal. cbv zeta in Hst. destruct Hst as [Hm Hd].
+  rewrite app_assoc.
   set (ps := out ++ match bm with Some b => [PutV cur b] | None => [] end) in *.
-  rewrite final_store_concat. simpl. rewrite app_nil_r.
-  replace (PutBucket :: out ++ match bm with Some b => [PutV cur b] | None => [] end
-             ++ [PutI (b_next bs `mod` 2^32); PutS (b_schema bs)])
-    with ([PutBucket] ++ ps ++ [PutI (b_next bs `mod` 2^32); PutS (b_schema bs)])
-    by (unfold ps; by rewrite <- !app_assoc).
-  rewrite !apply_tx_app.
-  assert (∀ s, let s' := apply_tx s ps in
-               st_bucket s' = st_bucket s ∧ st_schema s' = st_schema s ∧ st_count s' = st_count s
-               ∧ ∀ h, st_vals s' !! h = match puts_map_from (∅ : gmap N bitmap) ps !! h with
-                                        | Some b => Some (BitmapOk b) | None => st_vals s !! h end) as Happ.
-  { admit_placeholder. }
-  admit_placeholder.
+  rewrite big_tx_store, Hs, Hn. f_equal. f_equal.
+  apply map_eq. intros h.
+  destruct (puts_map ps !! h) as [b1|] eqn:E1; destruct (w_vals ws !! h) as [b2|] eqn:E2.
+  - f_equal. apply set_eq. intros i.
+    specialize (Hm h i). rewrite E1 in Hm. cbn [default] in Hm. rewrite Hm.
+    rewrite merge_sort_Permutation, Ht, E2. done.
+  - exfalso. assert (h ∈ (merge_sort key_le (b_temp bs)).*1) as Hin.
+    { apply Hd. rewrite E1. by eexists. }
+    apply elem_of_list_fmap in Hin as ([h' i] & -> & Hin). cbn [fst] in *.
+    rewrite merge_sort_Permutation in Hin. apply Ht in Hin. rewrite E2 in Hin.
+    cbn [default] in Hin. set_solver.
+  - exfalso. pose proof (Hne h b2 E2) as Hb2.
+    apply set_choose_L in Hb2 as [i Hi].
+    assert ((h, i) ∈ b_temp bs) as Hin. { apply Ht. by rewrite E2. }
+    rewrite <- (merge_sort_Permutation key_le) in Hin.
+    assert (is_Some (puts_map ps !! h)) as [? Hx]; [|congruence].
+    apply Hd. apply elem_of_list_fmap. by exists (h, i).
+  - done.
 Qed.
+
+Lemma big_never_panics rows : build_store H WBig rows ≠ Panic.
+Proof. rewrite big_store_eq_mem. done. Qed.
+
+(** Both writers hand out the same row ids. *)
+Lemma big_ids_eq_mem rows : (b_add_rows H b_init rows).1 = (w_add_rows H w_init rows).1.
+Proof. apply (BW_rows rows b_init w_init BW_init). Qed.
 
 End BigWriter.
